@@ -1,6 +1,8 @@
 """C06 – markup: same visible text with or without colour; characters styled by their enclosing tags
 (DESIGN §4 C06)."""
 import functools
+import json
+import os
 import re
 import string
 import sysconfig
@@ -663,6 +665,84 @@ def lex_plain(fmt):
     return out
 
 
+# ------------------------------------------------------------------ handler-level correspondence lines
+def enc_list(xs):
+    return ",".join(xs) if xs else "_"
+
+
+def pair_lines(sc, results):
+    """driver lines `pair …` for the log steps of a scenario the handler-level model covers, with what the
+    implementation did: [(line, impl_string, step_index)]"""
+    fmt = sc["format"] if sc["dynamic"] else sc["format"] + "\n{exception}"
+    try:
+        chunks = list(string.Formatter().parse(fmt))
+    except ValueError:
+        return []
+    enc_chunks = []
+    for lit, field, spec, conv in chunks:
+        if field is None:
+            enc_chunks.append("%s;N" % enc(lit))
+        else:
+            if "{" in spec or (field == "message" and conv):
+                return []
+            enc_chunks.append("%s;F;%s;%s;%s" % (enc(lit), enc(field), enc(conv or ""), enc(spec)))
+    colors = dict(DEFAULT_LEVEL_COLORS)
+    for name, _no, color in sc.get("custom_levels", []):
+        colors[name] = color
+    out = []
+    if results and results[0][0] == "add-error":
+        out.append(("pair %s M%s - _" % (enc_list(enc_chunks), enc("x")), "err " + results[0][1], None))
+        return out
+    ri = 0
+    for st in sc["steps"]:
+        if st["op"] == "recolor":
+            colors[st["level"]] = st["color"]
+            continue
+        res = results[ri] if ri < len(results) else ("missing",)
+        ri += 1
+        if st.get("raw"):
+            continue
+        msg, args, kwargs = st["message"], st.get("args", []), st.get("kwargs", {})
+        feeds = []
+        try:
+            if not args and not kwargs:
+                feeds.append("M" + enc(msg))
+            else:
+                auto = 0
+                for lit, field, spec, conv in string.Formatter().parse(msg):
+                    feeds.append("M" + enc(lit))
+                    if field is not None:
+                        if field == "":
+                            field = str(auto)
+                            auto += 1
+                        if "{" in spec:
+                            raise ValueError("nested")
+                        f = "{" + field + ("!" + conv if conv else "") + (":" + spec if spec else "") + "}"
+                        feeds.append("R" + enc(f.format(*args, **kwargs)))
+        except (ValueError, KeyError, IndexError, AttributeError):
+            continue
+        color = colors[st["level"]] if isinstance(st["level"], str) else ""
+        if res[0] == "ok":
+            rec = dict(res[3])
+            rec["exception"] = ""
+            vals = []
+            try:
+                for lit, field, spec, conv in chunks:
+                    if field is not None and field != "message":
+                        f = "{" + field + ("!" + conv if conv else "") + (":" + spec if spec else "") + "}"
+                        vals.append(enc(f.format_map(rec)))
+            except Exception:  # noqa
+                continue
+            impl = "ok %s %s" % (enc(res[1]), enc(res[2]))
+        elif res[0] == "log-error" and res[1] == "ValueError":
+            vals = [enc("v") for c in chunks if c[1] is not None and c[1] != "message"]
+            impl = "err ValueError"
+        else:
+            continue
+        out.append(("pair %s %s %s %s" % (enc_list(enc_chunks), enc_list(feeds), enc(color), enc_list(vals)), impl, ri - 1))
+    return out
+
+
 # ------------------------------------------------------------------ the check
 F10_WITNESS = {"format": "[{message:>10}]", "dynamic": False, "extra": {}, "custom_levels": [],
                "steps": [{"op": "log", "level": "INFO", "message": "<red>ab</red>", "raw": False}]}
@@ -675,9 +755,11 @@ CORPUS_PARSE = [
 
 
 def run(ctx):
-    rng = ctx.rng
+    # core.Rng(seed) streams of neighbouring seeds are shifts of one another (state = seed*K + c, step K):
+    # derive the stream through the hash-based fork so that seeds 0,1,2… give unrelated runs
+    rng = ctx.rng.fork("C06")
     drv = core.Driver(DRIVER)
-    boost = 4 if getattr(ctx, "search_boost", False) else 1
+    boost = 2 if getattr(ctx, "search_boost", False) else 1
     lines, expect = [], []     # driver lines and (what, impl_result, replay)
 
     def add_line(line, what, impl, replay):
@@ -708,14 +790,29 @@ def run(ctx):
     if impl_code("fg #EE1") == "some " + enc("\x1b[38;2;238;30;225m"):
         ctx.stat("observation:O1-hex3-read-as-rgbrgb")
 
-    # ---- stream 0: corpus
+    # ---- stream 0: corpus (files first, then the inline parser corpus)
+    cdir = os.path.join(core.VERIF, "corpus", PROP)
+    for fn in sorted(os.listdir(cdir)) if os.path.isdir(cdir) else []:
+        if fn.endswith(".json"):
+            item = json.load(open(os.path.join(cdir, fn), encoding="utf8"))
+            if item.get("stream") == "scenario":
+                sc0 = item["scenario"]
+                sc0["custom_levels"] = [tuple(x) for x in sc0.get("custom_levels", [])]
+                res0 = run_scenario(sc0)
+                judge_scenario(ctx, sc0, res0, "corpus:" + fn)
+                for line, impl, step in pair_lines(sc0, res0):
+                    add_line(line, "pair", impl, {"stream": "scenario", "scenario": sc0, "origin": "corpus:" + fn, "step": step})
+                ctx.case(("corpus", fn), nontrivial=True)
+                ctx.stat("corpus:scenario")
+            elif item.get("stream") == "parse":
+                CORPUS_PARSE.append(item["text"])
     for text in CORPUS_PARSE:
         judge_parse(ctx, text, "corpus")
         add_line("parse " + enc(text), "parse", impl_parse(text), {"stream": "parse", "text": text})
         add_line("scan " + enc(text), "scan", impl_scan(text), {"stream": "scan", "text": text})
 
     # ---- stream 1: structured markup strings -> AnsiParser vs model, and vs the oracle reader
-    n1 = ctx.n(2500, 120000) * boost
+    n1 = ctx.n(6000, 120000) * boost
     for i in range(n1):
         text, nest, esc = gen_markup(rng, 0, lambda r: gen_text(r), ctx.stat, malformed=rng.chance(12))
         vis = judge_parse(ctx, text, "structured")
@@ -730,7 +827,7 @@ def run(ctx):
         add_line("parse " + enc(text), "parse", r, {"stream": "parse", "text": text})
 
     # ---- stream 2: adversarial strings -> regex vs scanner, parser vs model
-    n2 = ctx.n(2500, 120000) * boost
+    n2 = ctx.n(6000, 120000) * boost
     for i in range(n2):
         text = gen_adversarial(rng)
         judge_parse(ctx, text, "adversarial")
@@ -772,12 +869,15 @@ def run(ctx):
     ctx.stat("ws:codepoints", len(cps))
 
     # ---- stream 5: handler scenarios judged by the direct oracle
-    n5 = ctx.n(1500, 60000) * boost
+    n5 = ctx.n(4000, 60000) * boost
     for i in range(n5):
         sub = rng.fork("sc%d" % i)
         sc = gen_scenario(sub, ctx.stat)
         results = run_scenario(sc)
         judge_scenario(ctx, sc, results, "generated")
+        for line, impl, step in pair_lines(sc, results):
+            ctx.stat("pair:lines")
+            add_line(line, "pair", impl, {"stream": "scenario", "scenario": sc, "origin": "pair", "step": step})
         logs = [s for s in sc["steps"] if s["op"] == "log"]
         nt = any((s["nest"] >= 2 or s["esc"] > 0) for s in logs) and any(r[0] == "ok" and r[2].strip() for r in results)
         ctx.case(("scenario", repr(sc)), nontrivial=nt)
@@ -797,22 +897,49 @@ def run(ctx):
             ctx.sample({"stream": "scenario", "scenario": sc,
                         "impl": [r[:3] for r in results]})
 
+    # ---- stream 6: models of CPython pieces: re.sub(ANSI_RE) vs Spec.unansi, str.__format__ vs strFormat
+    UA = ["\x1b", "[", "0", "31", ";", "m", "a", "\x1b[", "\x1b[0m", "\x1b[38;5;1m", "x", "[m", "\x1b[m", "M", " ", "1;", "\x1b\x1b["]
+    for i in range(ctx.n(1500, 40000)):
+        t = "".join(rng.choice(UA) for _ in range(rng.range(0, 8)))
+        add_line("unansi " + enc(t), "unansi", enc(ANSI_RE.sub("", t)), {"stream": "unansi", "text": t})
+    for i in range(ctx.n(600, 20000)):
+        spec = rng.choice(["", "x", "*", " "]) + rng.choice(["<", ">", "^", "", ""]) + rng.choice(["", "1", "5", "10", "12", "3"]) \
+            + rng.choice(["", "", ".0", ".2", ".5", "."]) + rng.choice(["", "", "s", "d", "x"])
+        val = rng.choice(["", "a", "ab", "hello", "\x1b[31mab\x1b[0m", "é<>", "abcdefghijkl"])
+        try:
+            r = "ok " + enc(format(val, spec))
+        except ValueError:
+            r = "err ValueError"
+        add_line("sfmt %s %s" % (enc(spec), enc(val)), "sfmt", r, {"stream": "sfmt", "spec": spec, "text": val})
+    if F10_WITNESS:
+        add_line("pair %s;F;%s;-;%s,%s;F;%s;-;- M%s %s %s" % (enc("["), enc("message"), enc(">10"), enc("]\n"), enc("exception"),
+                 enc("<red>ab</red>"), enc("<bold>"), enc("")), "pair", "ok %s %s" % (enc("[\x1b[31mab\x1b[0m]\n"), enc("[        ab]\n")),
+                 {"stream": "scenario", "scenario": F10_WITNESS, "origin": "F10-witness-model", "step": 0})
+
     # ---- run the model
     out = drv.run(lines)
     ndis = 0
     for (what, impl, rep), o in zip(expect, out):
         ctx.traces_validated += 1
         impl_s = impl if isinstance(impl, str) else ("ok " + impl[1] if impl[0] == "ok" else "err " + impl[1])
+        if what in ("pair", "sfmt") and o == "err Other":
+            ctx.stat(what + ":outside-model")      # spec outside the modelled str.__format__ subset
+            if what == "sfmt" and impl_s.startswith("ok") and rep["spec"][-1:] not in ("d", "x") and "0" != rep["spec"][:1]:
+                pass
+            continue
+        if what == "sfmt" and impl_s == "err ValueError" and o.startswith("err"):
+            continue
         if impl_s != o:
             ndis += 1
             ctx.stat("disagreements")
             if ndis <= 5:
                 ctx.broke("correspondence Markup." + what, "%r: impl %s, model %s" % (rep, impl_s, o))
-            if what in ("parse", "code", "scan", "ansify"):
+            if what in ("parse", "code", "scan", "ansify", "pair"):
                 rep2 = dict(rep)
                 rep2.update({"expected": o, "observed": impl_s})
                 ctx.violation("implementation and model disagree on %s(%r): impl %s, model %s"
-                              % (what, rep.get("text", rep.get("tag")), impl_s, o), rep2, kind="correspondence")
+                              % (what, rep.get("text", rep.get("tag", rep.get("scenario"))), impl_s, o), rep2,
+                              kind="correspondence")
             if ndis > 20:
                 break
     seen, uniq = set(), []
